@@ -102,6 +102,9 @@ def replay_one(ctx: core.Ctx, mod, entry: dict, name: str, notes: list[str]) -> 
     before = sum(ctx.known_hits.values())
     try:
         sub.fn(ctx, entry["input"])
+    except core.Inconclusive as exc:
+        notes.append(f"replay {name}: inconclusive ({exc})")
+        return
     except core.Violation as exc:
         ctx.record_violation(exc, entry["input"], kind=entry["sub"])
         return
